@@ -676,7 +676,7 @@ func (n *ExtendsNode) Render(w io.Writer, ctx *RenderContext) error {
 	resolvedName := templateName
 	if strings.HasPrefix(templateName, "./") || strings.HasPrefix(templateName, "../") {
 		// Get the directory of the current template
-		currentTemplate := ctx.engine.currentTemplate
+		currentTemplate := ctx.currentTemplateName()
 		if currentTemplate != "" {
 			// Extract the directory part of the current template
 			currentDir := filepath.Dir(currentTemplate)
@@ -787,7 +787,7 @@ func (n *IncludeNode) Render(w io.Writer, ctx *RenderContext) error {
 	resolvedName := templateName
 	if strings.HasPrefix(templateName, "./") || strings.HasPrefix(templateName, "../") {
 		// Get the directory of the current template
-		currentTemplate := ctx.engine.currentTemplate
+		currentTemplate := ctx.currentTemplateName()
 		if currentTemplate != "" {
 			// Extract the directory part of the current template
 			currentDir := filepath.Dir(currentTemplate)
@@ -848,7 +848,8 @@ func (n *IncludeNode) Render(w io.Writer, ctx *RenderContext) error {
 		// Create a new context
 		includeCtx = NewRenderContext(ctx.env, contextVars, ctx.engine)
 		includeCtx.sandboxed = ctx.sandboxed // includes inside a sandbox stay sandboxed
-		// Set the template as the lastLoadedTemplate for relative path resolutionn			includeCtx.lastLoadedTemplate = template
+		// Set the template as the lastLoadedTemplate for relative path resolution
+		includeCtx.lastLoadedTemplate = template
 		defer includeCtx.Release()
 
 		// If sandboxed, enable sandbox mode
@@ -1202,7 +1203,7 @@ func (n *ImportNode) Render(w io.Writer, ctx *RenderContext) error {
 	resolvedName := templateName
 	if strings.HasPrefix(templateName, "./") || strings.HasPrefix(templateName, "../") {
 		// Get the directory of the current template
-		currentTemplate := ctx.engine.currentTemplate
+		currentTemplate := ctx.currentTemplateName()
 		if currentTemplate != "" {
 			// Extract the directory part of the current template
 			currentDir := filepath.Dir(currentTemplate)
@@ -1229,7 +1230,8 @@ func (n *ImportNode) Render(w io.Writer, ctx *RenderContext) error {
 	// Create a new context for the imported template
 	importCtx := NewRenderContext(ctx.env, nil, ctx.engine)
 	importCtx.sandboxed = ctx.sandboxed // imports inside a sandbox stay sandboxed
-	// Set the template as the lastLoadedTemplate for relative path resolutionn	importCtx.lastLoadedTemplate = template
+	// Set the template as the lastLoadedTemplate for relative path resolution
+	importCtx.lastLoadedTemplate = template
 
 	// Ensure context is released even in error paths
 	defer importCtx.Release()
@@ -1294,7 +1296,7 @@ func (n *FromImportNode) Render(w io.Writer, ctx *RenderContext) error {
 	resolvedName := templateName
 	if strings.HasPrefix(templateName, "./") || strings.HasPrefix(templateName, "../") {
 		// Get the directory of the current template
-		currentTemplate := ctx.engine.currentTemplate
+		currentTemplate := ctx.currentTemplateName()
 		if currentTemplate != "" {
 			// Extract the directory part of the current template
 			currentDir := filepath.Dir(currentTemplate)
@@ -1321,7 +1323,8 @@ func (n *FromImportNode) Render(w io.Writer, ctx *RenderContext) error {
 	// Create a new context for the imported template
 	importCtx := NewRenderContext(ctx.env, nil, ctx.engine)
 	importCtx.sandboxed = ctx.sandboxed // imports inside a sandbox stay sandboxed
-	// Set the template as the lastLoadedTemplate for relative path resolutionn	importCtx.lastLoadedTemplate = template
+	// Set the template as the lastLoadedTemplate for relative path resolution
+	importCtx.lastLoadedTemplate = template
 
 	// Ensure context is released even in error paths
 	defer importCtx.Release()
